@@ -64,7 +64,27 @@ func verifAssume(c bool) {
 
 type verifAssertFailed struct{ label string }
 
+var verifProp string
+
+// verifLabelFor: an assertion label "C01,C08: text" concerns property id; labels without a
+// property prefix concern every property (same rule as the executor's).
+func verifLabelFor(label, id string) bool {
+	i := strings.Index(label, ":")
+	if id == "" || i < 0 || !strings.HasPrefix(label, "C") {
+		return true
+	}
+	for _, x := range strings.Split(label[:i], ",") {
+		if strings.TrimSpace(x) == id {
+			return true
+		}
+	}
+	return false
+}
+
 func verifAssert(c bool, label string) {
+	if !verifLabelFor(label, verifProp) {
+		return
+	}
 	if !c {
 		panic(verifAssertFailed{label})
 	}
@@ -129,6 +149,7 @@ type verifReplayFile struct {
 	Strings map[string]string `json:"strings"`
 	Flags   []string          `json:"flags"`
 	Tries   int               `json:"tries"`
+	Prop    string            `json:"prop"`
 }
 
 func verifLoad(path string) (*verifReplayFile, error) {
@@ -178,6 +199,7 @@ func verifLoad(path string) (*verifReplayFile, error) {
 	for _, f := range rf.Flags {
 		verifFlags[f] = true
 	}
+	verifProp = rf.Prop
 	return rf, nil
 }
 
